@@ -453,6 +453,7 @@ impl Property for C02 {
     fn generate(&self, seed: u64, idx: usize, tier: Tier) -> Value {
         let mut sc = gen_c02(seed, idx, tier);
         amend_some(&mut sc.ops, seed, "C02-amend", idx);
+        same_stat_some(&mut sc.ops, seed, "C02-samestat", idx);
         serde_json::to_value(sc).unwrap()
     }
     fn execute(&self, v: &Value) -> Outcome {
@@ -498,6 +499,18 @@ pub struct C07;
 /// One commit in five of a generated history becomes `git commit --amend`: HEAD's previous commit - which may be the
 /// checkpoint's - stops being an ancestor of HEAD (rewritten history: amend, rebase, squash). Trees, and with them
 /// every expected change set, are what they would be after a plain commit. Own generator over the finished list.
+/// One plain edit in six keeps the file's size and modification time (own generator over the finished list).
+pub fn same_stat_some(ops: &mut [GitOp], seed: u64, tag: &str, idx: usize) {
+    let mut rng = Rng::new(scenario_seed(seed, tag, idx));
+    for op in ops.iter_mut() {
+        if let GitOp::Edit { path } = op {
+            if rng.chance(1, 6) && !path.ends_with("dirlink") {
+                *op = GitOp::EditSameStat { path: path.clone() };
+            }
+        }
+    }
+}
+
 pub fn amend_some(ops: &mut [GitOp], seed: u64, tag: &str, idx: usize) {
     let mut rng = Rng::new(scenario_seed(seed, tag, idx));
     for op in ops.iter_mut() {
@@ -671,8 +684,11 @@ fn exec_c07_inner(sc: &C07Scenario) -> Outcome {
                 return out;
             }
             match op {
-                GitOp::Create { path } | GitOp::Edit { path } | GitOp::EditOld { path } | GitOp::Delete { path } | GitOp::Crlf { path } => {
+                GitOp::Create { path } | GitOp::Edit { path } | GitOp::EditOld { path } | GitOp::EditSameStat { path } | GitOp::Delete { path } | GitOp::Crlf { path } => {
                     edited.insert(path.clone());
+                    if matches!(op, GitOp::EditSameStat { .. }) {
+                        out.fault("edit_keeping_size_and_modification_time", 1);
+                    }
                     if path.ends_with(".big") {
                         out.fault("edit_beyond_the_first_mib_of_a_large_file", 1);
                     }
@@ -708,7 +724,9 @@ fn exec_c07_inner(sc: &C07Scenario) -> Outcome {
             Ok((d, o)) => {
                 let raw: BTreeSet<String> = d.union(&o).cloned().collect();
                 let head_tree = e.model.head().clone();
-                if raw != e.model.changes_vs_worktree(&head_tree) {
+                let modelled = e.model.changes_vs_worktree(&head_tree);
+                if raw != modelled {
+                    out.advisories.push(format!("model_uncertain: only raw git {:?}, only model {:?}", raw.difference(&modelled).collect::<Vec<_>>(), modelled.difference(&raw).collect::<Vec<_>>()));
                     out.skipped = Some("model_uncertain(R-git disagrees with raw git)".into());
                     return out;
                 }
@@ -777,6 +795,8 @@ impl Property for C07 {
         for (k, ph) in sc.phases.iter_mut().enumerate() {
             amend_some(&mut ph.dirty, seed, "C07-amend-d", idx * 16 + k);
             amend_some(&mut ph.edits, seed, "C07-amend-e", idx * 16 + k);
+            same_stat_some(&mut ph.dirty, seed, "C07-samestat-d", idx * 16 + k);
+            same_stat_some(&mut ph.edits, seed, "C07-samestat-e", idx * 16 + k);
         }
         serde_json::to_value(sc).unwrap()
     }
@@ -1177,6 +1197,7 @@ impl Property for C19 {
     fn generate(&self, seed: u64, idx: usize, tier: Tier) -> Value {
         let mut sc = gen_c19(seed, idx, tier);
         amend_some(&mut sc.ops, seed, "C19-amend", idx);
+        same_stat_some(&mut sc.ops, seed, "C19-samestat", idx);
         serde_json::to_value(sc).unwrap()
     }
     fn execute(&self, v: &Value) -> Outcome {
